@@ -93,6 +93,11 @@ type c06run struct {
 	fresh   func() *dev.Dev
 	taint   bool
 	okCalls int
+	// readAhead: in the pre-init configuration (fresh == nil) the tree was seen to ask the OS reader for more bytes
+	// than any call needs. A tree may treat the OS reader specially (read ahead, keep a reservoir): its calls then
+	// are no function of the bytes delivered during the call, which is what this oracle compares - that
+	// configuration is judged by C07 (conservation over the whole process), not here.
+	readAhead bool
 }
 
 // slowVals: simulated milliseconds a read of the device may take (just past plausible timeouts).
@@ -270,12 +275,28 @@ func (r *c06run) one(c C06Case) {
 	if d.SlowMs >= 60000 {
 		res.Probes["a_read_took_a_simulated_minute_or_more"]++
 	}
+	if r.fresh == nil && !r.readAhead {
+		gave := 0
+		for _, rec := range d.Log {
+			gave += rec.Gave
+			if rec.Asked > 32 {
+				r.readAhead = true // reads ahead
+			}
+		}
+		if gave > need {
+			r.readAhead = true // draws more than the call needs (a reservoir, power-on tests of the OS reader, ...)
+		}
+	}
 	relaxFam := c.Family == "boundary" || c.Family == "stalls" || c.Family == "combo" || c.Family == "slow"
 	for _, ch := range []byte(o.Out + "|" + o.Err + "|" + o.Panic) {
 		h = fnv(h, uint64(ch))
 	}
 	res.Digest = fnv(res.Digest, h)
 	class, detail := r.judge(&c, &o, relaxFam)
+	if r.readAhead && class != "" && class != "panic" {
+		res.Relaxed["v_pre_init_process_reads_ahead_from_the_os_reader_judged_by_c07"]++
+		class, detail = "", ""
+	}
 	if class != "" {
 		res.ViolCount++
 		if len(res.Viol) < 8 {
